@@ -113,6 +113,7 @@ def corpus_model_lines():
 
 def run(R):
     R.assumptions += [
+        "generic constructors (`fn g<T>() -> G<T>` bound to an instantiation) are outside the Lean lookup (which compares types by identity): for the family `generic` the nearest-registration rule is checked by a model-free oracle on the traces of the generated servers only",
         "scoping rule used by the oracle (runtime/pavex/src/blueprint/nesting.rs, 'Precedence'): a handler or middleware sees the constructors of the blueprint "
         "it is registered in (latest registration per type) and of the enclosing blueprints; the inputs of a constructor are resolved for the component on whose behalf it runs",
         "constructors stamp what they build (tools/gen_app.py instrumentation): the trace is trusted to tell which constructor produced an instance",
@@ -251,6 +252,39 @@ def run(R):
                 if why:
                     clone_bad.append({"program": name, "request": where, "line": line, "why": why, "app_module_source": obs[name]["src"]})
 
+    # ---- generic constructors (family `generic`, tools/gen_generic.py): model-free. The Lean lookup is by type identity;
+    # binding a generic constructor to an instantiation is outside it, so this part of the property is tested, not proved.
+    import gen_generic
+    n_generic = n_generic_vals = n_generic_shadow = 0
+    for name, d in rt.items():
+        sp = obs[name]["spec"] if name in obs else None
+        if not sp or sp.get("klass") != "generic" or not d["result"] or "responses" not in d["result"]:
+            continue
+        n_generic += 1
+        scopes = sp["generic"]["scopes"]
+        for req, resp in zip(d["requests"], d["result"]["responses"]):
+            sc = scopes[req["scope"]]
+            h = sc["handler"]
+            want = [gen_generic.resolve(scopes, req["scope"], pp) for pp in h["wants"]]
+            lines = [l for l in resp.get("trace", []) if l.startswith("handler %s.%s :" % (name, h["fn"]))]
+            got = [x.split("/")[0] for x in lines[0].split(":", 1)[1].split()] if len(lines) == 1 else None
+            built = [l.split()[1].split(".", 1)[1] for l in resp.get("trace", []) if l.startswith("ctor %s." % name)]
+            n_generic_vals += len(want)
+            # non-trivial: the nearest registration differs from what a walk that prefers concrete constructors would pick
+            for pp, w in zip(h["wants"], want):
+                x, conc = req["scope"], None
+                while x is not None and conc is None:
+                    conc = next((r["fn"] for r in scopes[x]["regs"] if r["produces"] == pp), None)
+                    x = scopes[x]["parent"]
+                if conc is not None and conc != w:
+                    n_generic_shadow += 1
+            if resp.get("status") != 200 or got != want or sorted(built) != sorted(want):
+                fails.append({"program": name, "request": "GET %s" % req["path"], "consumer": h["fn"],
+                              "why": "`%s` asked for %s and received values built by %s (constructors that ran: %s); the nearest enclosing registrations are %s" % (
+                                  h["fn"], ["G<%s>" % x for x in h["wants"]], got, built, want),
+                              "status": resp.get("status"), "trace": resp.get("trace"), "generic": sp["generic"], "app_module_source": obs[name]["src"]})
+    hist_generic = {"servers": n_generic, "injected_values": n_generic_vals, "generic_or_concrete_shadows_the_other": n_generic_shadow}
+
     # ---- L3b: clone nodes in the dumped call graphs ------------------------------------------------------
     graphs = clone_graphs(obs)
     greqs, gown, graph_fails = [], [], []
@@ -292,6 +326,7 @@ def run(R):
                                      scopes_programs_accepted=sum(1 for o in obs.values() if o["klass"] == "scopes" and o["rc"] == 0),
                                      scopes_programs_with_ambiguous_pipeline=sum(1 for o in obs.values() if o["klass"] == "scopes" and o["spec"].get("ambiguous_pipeline")),
                                      scopes_programs_observed=sum(1 for n in progs if obs[n]["klass"] == "scopes"))
+    R.coverage["generic_family"] = hist_generic
     R.coverage["samples"] = samples
     R.coverage["model_vs_impl_disagreements"] = len(dis)
     R.coverage["impl_vs_oracle_failures"] = len(fails) + len(clone_bad) + len(graph_fails) + len(known_hits)
